@@ -8,9 +8,12 @@ spec -> code, four specifications, every record replayed by harness/cmd/c17:
                    atoms).  Replayed through spec.NewUserID, spec.NewRoomID, spec.ParseAndValidateServerName,
                    gomatrixserverlib.SplitID (one pass per parser).
   Base64_gen.tla   unpadded base64 in both alphabets over byte strings hitting sextets 62 / 63.
-  Limits.tla       255 code points / 255 bytes / 65 536 bytes on receipt, on build and in CheckFields.
+  Limits.tla       255 code points / 255 bytes / 65 536 bytes on receipt (content hash matching or not: the
+                   redacted survivor is judged the same way), on build and in CheckFields.
   VersionTable.tla the 16 x 12 trait matrix: getters and one behavioural probe per function-valued entry.
 """
+
+import concurrent.futures
 
 IDENT_MODES = ["us", "uh", "rm", "sn", "split"]
 
@@ -34,29 +37,41 @@ def run(ctx):
         "classes; struct: sigil/localpart/host/port positions with <= %d deviations from the canonical skeleton, "
         "PAD strings closed at total lengths 254/255/256), each judged by 4 recognisers + SplitID; "
         "Base64: all byte strings of <= 3 bytes over the %s byte alphabet x spelling variants; "
-        "Limits: field x shape (code points / bytes at, below, above 255; 1-, 2-, 4-byte characters) x path x version, "
+        "Limits: field x shape (code points / bytes at, below, above 255; 1-, 2-, 4-byte characters) x path x version "
+        "x content hash on receipt (match / mismatch re-parsed after redaction / mismatch unchanged by redaction), "
         "JSON sizes 65535/65536/65537, and pairs (byte-only excess + hard excess); "
         "VersionTable: 16 versions x (getters + 34 probes). "
         "distinct = distinct (parser, grammar description, verdict) / (variant, length, alphabet) / "
         "(family, path, version class, shape class, verdict) / (probe, outcome) classes"
         % ((3, 2, "7-value") if t == "quick" else (4, 3, "12-value")))
 
-    # --- identifiers ---------------------------------------------------------------------------
-    for fam in ("free", "struct"):
-        r = ctx.tlc("Ident_gen", "Ident_gen_%s_%s.cfg" % (fam, t), timeout=1500)
-        for mode in IDENT_MODES:
-            ctx.replay_and_compare("ident", r.records, args=["-mode", mode], pkg="c17")
-        del r
+    jobs = [("Ident_gen", "Ident_gen_free_%s.cfg" % t, "ident"), ("Ident_gen", "Ident_gen_struct_%s.cfg" % t, "ident"),
+            ("Base64_gen", "Base64_gen_%s.cfg" % t, "b64"),
+            ("Limits_gen", "Limits_gen_single_%s.cfg" % t, "limits"), ("Limits_gen", "Limits_gen_pair_%s.cfg" % t, "limits"),
+            ("VersionTable_gen", "VersionTable_gen_%s.cfg" % t, "table")]
 
-    # --- base64 ----------------------------------------------------------------------------------
-    r = ctx.tlc("Base64_gen", "Base64_gen_%s.cfg" % t)
-    ctx.replay_and_compare("b64", r.records, pkg="c17")
+    def replay(cmd, records):
+        if cmd == "ident":
+            for mode in IDENT_MODES:   # one pass per parser
+                ctx.replay_and_compare("ident", records, args=["-mode", mode], pkg="c17")
+        else:
+            ctx.replay_and_compare(cmd, records, pkg="c17")
 
-    # --- size limits -------------------------------------------------------------------------------
-    for fam in ("single", "pair"):
-        r = ctx.tlc("Limits_gen", "Limits_gen_%s_%s.cfg" % (fam, t))
-        ctx.replay_and_compare("limits", r.records, pkg="c17")
-
-    # --- version table -----------------------------------------------------------------------------
-    r = ctx.tlc("VersionTable_gen", "VersionTable_gen_%s.cfg" % t)
-    ctx.replay_and_compare("table", r.records, pkg="c17")
+    if t == "quick":
+        # the generators are independent: run TLC on all of them at once (wall time), then replay in order
+        ctx._spec_dir()
+        ctx.harness_build(pkg="c17")
+        with concurrent.futures.ThreadPoolExecutor(max_workers=len(jobs)) as ex:
+            futs = [ex.submit(ctx.tlc, m, cfg, 4, 600) for m, cfg, _ in jobs]
+            results = [f.result() for f in futs]
+        # the counters were updated from several threads: restate them from the results
+        ctx.states = sum(r.distinct for r in results)
+        ctx.transitions = sum(r.generated for r in results)
+        ctx.tlc_runs.sort(key=lambda x: (x["module"], x["cfg"]))
+        for (m, cfg, cmd), r in zip(jobs, results):
+            replay(cmd, r.records)
+    else:
+        for m, cfg, cmd in jobs:
+            r = ctx.tlc(m, cfg, timeout=1500)
+            replay(cmd, r.records)
+            del r
